@@ -304,6 +304,20 @@ def intersect_args(strategy):
     return lambda c: [enc_arr(c["c1"]), enc_arr(c["c2"]), strategy]
 
 
+def same_pairs(u, v, tol):
+    """u and v are the same multiset of parameter pairs up to tol (matching, not a sorted zip: two crossings with nearly equal
+    first parameter can sort differently)"""
+    v = list(v)
+    if len(u) != len(v):
+        return False
+    for x in u:
+        hit = next((y for y in v if abs(x[0] - y[0]) <= tol and abs(x[1] - y[1]) <= tol), None)
+        if hit is None:
+            return False
+        v.remove(hit)
+    return True
+
+
 def judge_c02(c, op, cfg, raw):
     """every reported pair has both parameters in [0,1] and is a common point up to 2^-30 of the net size"""
     if "exc" in raw:
